@@ -5,7 +5,7 @@ from ..engine.astutil import (const_str, const_int, dotted, unparse, pmatch, wal
                               names_in, template_of)
 from ..engine.cfg import CFG, ENTRY, EXIT
 from ..engine.symx import run_paths
-from . import c02, c05
+from . import c02, c03, c05
 from .interp import PYRTL, PYEVAL
 
 PYSIM = "amaranth/sim/pysim.py"
@@ -396,4 +396,7 @@ _merge = lambda c: c.startswith("_PySignalState") or c.startswith("_PyMemoryStat
 
 RULES = [("R-08a", r08a), ("R-08b", r08b), ("R-08c", r08c), ("R-08d", r08d), ("R-08e", r08e),
          ("R-02g", _only(c02.r02g, _merge)), ("R-02f", _only(c02.r02f, lambda c: c.startswith("_FragmentCompiler"))),
-         ("R-05a", c05.r05a)]
+         ("R-05a", c05.r05a),
+         # two processes of one domain (clocked, asynchronous reset) may run in the same delta cycle: they must write the
+         # same masked bits, or the result depends on which runs last
+         ("R-03a", _only(c03.r03a, lambda c: "async-reset-process" in c))]
